@@ -39,6 +39,10 @@ CHECKS = {
   text="Proof that (*Loader).mergeConfig implements the property's merge law for EVERY field of targets.Config as it is in the working tree: the contract is generated from the struct type at check time (string: nearest non-empty definer wins; bool: or; []string: concatenation in order, element-wise; Name and *src unchanged; nothing else written). A field added and not merged, a dropped if, or replace-instead-of-append fails that field's obligation.",
   note="Not decided yet: fold order over the inheritance forest in resolveInheritance/Load and the missing/cyclic-parent clause (DESIGN.md C18); JSON decoding (encoding/json) trusted. Assumes dst's list arrays are disjoint from src's arrays and both objects (true in resolveInheritance where dst is fresh); strings compared by representation; Go append semantics trusted.",
   ref="DESIGN.md §3 C18"),
+"C20": dict(
+  text="Proof, for every archive entry name (unconstrained symbolic string), that extractTarGz and extractZip call a file-system-creating function (os.MkdirAll, os.OpenFile, os.Create) only with a path proved to lie lexically below the destination (or to be the destination itself for parent directories), that an entry for which this cannot be established ends the extraction with an error before any such call, and that these functions call no other file-system mutator (effect allow-list: no Symlink/Link/Rename/Chmod/...), so links in archives are never materialised.",
+  note="The path argument rests on TRUSTED lemmas about the Go standard library (/verif/specs/paths.smt2): filepath.Join returns a Clean'ed path; a cleaned path with prefix Clean(dest)+separator lies below dest; Dir of a confined path is confined or dest. NOT decided: byte-exact contents (io.Copy, archive readers), the concurrent-requests clause (flock+rename across processes), .tar.xz (delegated to the external tar program, trusted), dispatch in downloadAndExtractArchive. Deferred Close calls are not executed in the model.",
+  ref="DESIGN.md §3 C20"),
 "C05": dict(
   text="Proof (all inputs, all loop iterations via invariants) of functional contracts taken from the property: append/grow/copy/slice header arithmetic, storage sharing, byte-exact prefix/appended contents incl. overlap and zero-size elements; UTF-8 decode/encode against Unicode Table 3-6/3-7 spec functions and their round-trip lemma; string concat/equality/ordering/iteration/conversions.",
   note="Trusted: libc memcpy/memmove/memset contracts (memcpy requires non-overlap: obligation), allocator freshness, clite.Advance, go 'make'. GrowSlice/SliceAppend/SliceCopy are verified under stated size bounds (etSize < 2^16, cap,num < 2^28) in int mode with explicit no-overflow obligations; typed and raw memory views assumed disjoint. StringToRunes/StringFromRunes: see evidence (loop safety only).",
